@@ -79,6 +79,16 @@ def transport_count(ctx, ncls=3, kind="euler"):
     nz = ctx.eq(nuc, 0.0, rtol=0.0)
     ctx.prove("with zero nucleation rate the number density never increases", ctx.implies(nz, ctx.le(tot_new, tot_old)))
     ctx.prove("state handed to the iterator is not modified", ctx.all([ctx.eq(x[i], xs[i]) for i in range(ncls)]))
+    # the update that follows (classes below one particle are removed) must not create particles either
+    single_face = ctx.all([ctx.any([g[i] >= 0, g[i + 1] <= 0]) for i in range(ncls)])     # no class loses through both faces
+    newl = [new[i] * 1 for i in range(ncls)]
+    pbm.UpdatePBMEuler(ctx.real("t_upd", (0.1, 1.0)), new)
+    tot_upd = sum(pbm.PSD[i] for i in range(ncls))
+    ctx.prove("no class that loses through one face only becomes negative", ctx.implies(single_face, ctx.all([ctx.le(0.0, newl[i]) for i in range(ncls)])))
+    ctx.prove("recorded number density after the update grows by at most nucRate*dt (no class loses through both faces)",
+              ctx.implies(single_face, ctx.le(tot_upd, tot_old + nuc * dt)))
+    ctx.prove("recorded number density after the update grows by at most nucRate*dt (a class loses through both faces beyond its content)",
+              ctx.implies(ctx.neg(single_face), ctx.le(tot_upd, tot_old + nuc * dt)))
 
 
 def update_truncates(ctx, ncls=3):
